@@ -58,6 +58,31 @@ def sbuf_of(sp):
     return sp._buffer.content
 
 
+def K_cover(sp, W, L):
+    """C03 coverage invariant between searches: the search buffer (a suffix of the pending text, INV_buf) still
+    holds everything a later search may need -- all pending text, or at least its last W characters under a window,
+    or its last L-1 characters under a look-back L (maintain = searchwindowsize or lookback in do_search)."""
+    B, P = sbuf_of(sp), pend_of(sp)
+    whole = eq(B, P)
+    if W is not None:
+        return Or(length(B) >= W, whole)
+    if L is None:
+        return whole
+    return And(Implies(eq(L, 0), whole), Implies(L > 0, Or(length(B) >= L - 1, whole)))
+
+
+def R_region(window, freshlen, W, L, P):
+    """C03: what do_search is handed.  Under a window W: exactly the last W characters of the pending text (the
+    naive region).  Without one: all pending text, or - with a look-back L - a suffix of it that reaches at least L-1
+    characters behind the fresh data (an occurrence of a string of length <= L that is not wholly old text starts there)."""
+    if W is not None:
+        return [('C03:window-is-last-W-of-pending', eq(window, last_n(P, W)))]
+    if L is None:
+        return [('C03:window-is-all-pending', eq(window, P))]
+    return [('C03:window-is-all-pending-without-lookback', Implies(eq(L, 0), eq(window, P))),
+            ('C03:window-covers-fresh-plus-lookback', Implies(L > 0, And(freshlen >= 0, Or(eq(window, P), length(window) >= freshlen + L - 1))))]
+
+
 class DoSearch(Contract):
     name = 'pexpect.expect.Expecter.do_search'
     props = ('C01', 'C02', 'C03')
@@ -72,7 +97,9 @@ class DoSearch(Contract):
         return [('inv', INV_buf(sp)),
                 ('window-suffix', suffix_of(v.a.window, pend_of(sp))),
                 ('W-domain', W_ok(me.searchwindowsize)),
-                ('L-domain', True if me.lookback is None else me.lookback >= 0)]
+                ('L-domain', True if me.lookback is None else me.lookback >= 0)] + \
+            R_region(v.a.window, v.a.freshlen, me.searchwindowsize, me.lookback, pend_of(sp)) + \
+            [('C03:buffer-holds-the-window', suffix_of(v.a.window, sbuf_of(sp)))]
 
     def outcomes(self, v):
         return [Ret(T.Int, 'hit'), Ret(T.NoneT, 'miss')]
@@ -97,7 +124,8 @@ class DoSearch(Contract):
         if v.result is None:
             out += [('miss.pending-unchanged', eq(pend_of(new), pend)),
                     ('miss.nothing-reported', And(same(new.before, old.before), same(new.after, old.after),
-                                                  same(new.match, old.match), same(new.match_index, old.match_index)))]
+                                                  same(new.match, old.match), same(new.match_index, old.match_index))),
+                    ('C03:miss.buffer-still-covers', K_cover(new, v.old.self.searchwindowsize, v.old.self.lookback))]
         else:
             out += [
                 # C01: conservation - what is handed back plus what stays pending is what was pending
@@ -129,6 +157,7 @@ class ExistingData(Contract):
 
     def effects(self, v):
         v.g['searched_pending'] = True
+        v.g['expecter_obj'] = v.args_v['self']      # for the awaited form: who is waiting (contracts/aio.py)
 
     def ensures(self, v):
         old, new = v.old.self.spawn, v.new.self.spawn
@@ -137,7 +166,8 @@ class ExistingData(Contract):
         if v.result is None:
             out += [('miss.pending-unchanged', eq(pend_of(new), pend)),
                     ('miss.nothing-reported', And(same(new.before, old.before), same(new.after, old.after),
-                                                  same(new.match, old.match), same(new.match_index, old.match_index)))]
+                                                  same(new.match, old.match), same(new.match_index, old.match_index))),
+                    ('C03:miss.buffer-still-covers', K_cover(new, v.old.self.searchwindowsize, v.old.self.lookback))]
         else:
             out += [('hit.conserve', eq(cat(new.before, new.after, pend_of(new)), pend)),
                     ('hit.buffer-is-pending', eq(sbuf_of(new), pend_of(new))),
@@ -154,7 +184,11 @@ class NewData(Contract):
         me, sp, se, kind = expecter_shape(b)
         return dict(self=me, data=b.str('data', kind))
 
-    requires = ExistingData.requires
+    def requires(self, v):
+        me = v.a.self
+        return ExistingData.requires(self, v) + \
+            [('C03:buffer-covers', K_cover(me.spawn, me.searchwindowsize, me.lookback))]
+
     outcomes = DoSearch.outcomes
 
     def modifies(self, v, out):
@@ -172,7 +206,8 @@ class NewData(Contract):
         if v.result is None:
             out += [('miss.pending-grows-by-data', eq(pend_of(new), pend)),
                     ('miss.nothing-reported', And(same(new.before, old.before), same(new.after, old.after),
-                                                  same(new.match, old.match), same(new.match_index, old.match_index)))]
+                                                  same(new.match, old.match), same(new.match_index, old.match_index))),
+                    ('C03:miss.buffer-still-covers', K_cover(new, v.old.self.searchwindowsize, v.old.self.lookback))]
         else:
             out += [('hit.conserve', eq(cat(new.before, new.after, pend_of(new)), pend)),
                     ('hit.buffer-is-pending', eq(sbuf_of(new), pend_of(new))),
@@ -341,7 +376,8 @@ class ExpectLoopInv(LoopSpec):
                ('nothing-reported', And(same(sp.before, old.before), same(sp.after, old.after),
                                         same(sp.match, old.match), same(sp.match_index, old.match_index))),
                ('clock-forward', v.g['clk'] >= v.g0['clk']),
-               ('reads-counted', v.g['nreads'] >= v.g0['nreads'])]
+               ('reads-counted', v.g['nreads'] >= v.g0['nreads']),
+               ('C03:buffer-covers', K_cover(sp, v.old.self.searchwindowsize, v.old.self.lookback))]
         if v.old.timeout is not None:
             T0 = v.old.timeout
             d = sp.delayafterread
@@ -594,6 +630,7 @@ class SearcherStringSearch(Contract):
 
     def effects(self, v):
         v.bk = v.draw(T.Int, 'bk')
+        v.g['ss.bk'] = v.bk          # which list entry matched (witness, used by the C03 contracts of the callers)
 
     def ensures(self, v):
         me, new = v.old.self, v.new.self
